@@ -686,6 +686,13 @@ impl Simk {
         self.new_regular(0).1
     }
 
+    /// Take a descriptor made outside the simulated kernel (a `dup`) into the table.
+    pub fn adopt_regular(&mut self, fd: i32) -> u32 {
+        let id = self.descs.len() as u32;
+        self.descs.push(Desc { id, kind: DescKind::Regular(fd), origin: u32::MAX, open: true, closes: Vec::new() });
+        id
+    }
+
     fn new_regular(&mut self, origin: u32) -> (u32, i32) {
         let fd = unsafe { libc::fcntl(self.devnull, libc::F_DUPFD_CLOEXEC, self.next_fd) };
         assert!(fd >= self.next_fd && fd < ISSUED_FD_LIMIT, "simk: fd allocation failed ({fd})");
